@@ -73,6 +73,10 @@ KINDS = {
                 denitmo_record, ["C1", "CUMDENIT"], 400),
     "harv": ("(harvest_in (T:=float) * harv_obs)", "harvest_check", harv_record,
              ["NFOS/NAOS after the harvest", "DSUMM", "residue N / above-ground N of the crop record", "crop N kept by a permanent crop"], 300),
+    "prog": ("(float * float * float * float * float * float * (float * float))", "prog_check",
+             lambda c: "(%s, %s, %s, %s, %s, %s, (%s, %s))" % (fl(c["in"]["c10"]), fl(c["in"]["dtgesn"]), fl(c["in"]["angebot"]), fl(c["in"]["wg0"]),
+                                                             fl(c["in"]["dz"]), fl(c["in"]["dungbed"]), fl(c["out"]["c1"]), fl(c["out"]["dungbed"])),
+             ["C1[0] after the dressing", "DUNGBED"], 400),
     "till": ("(nmove_in (T:=float) * till_obs)", "till_check", till_record,
              ["NFOS/NAOS", "MINFOS/MINAOS", "C1 after the transport step"], 100),
 }
